@@ -53,6 +53,11 @@ type Scenario struct {
 	Fail        string `json:"fail,omitempty"` // refused unreach dns reject upstream
 	UpCode      int    `json:"up_code,omitempty"`
 	DomainAddr  bool   `json:"domain_addr,omitempty"` // chained clients: ask for a domain-name target
+	// Reset: the session ends with a copy error after it has relayed data.
+	//   target : once both peers hold everything the other sent, the target aborts its connection (SO_LINGER 0 + Close => RST)
+	//   client : the same, the client aborts
+	//   wclosed: the target closes its socket completely after its last byte; the client then keeps writing (two bursts)
+	Reset string `json:"reset,omitempty"`
 }
 
 // stream returns n bytes of the position-dependent pseudo-random stream `seed` starting at offset off.
@@ -118,6 +123,8 @@ type Obs struct {
 	SawPeerEOFBeforeOwnClose string   `json:"half_close_seen_by,omitempty"`
 	DialAfterRequestMs       int      `json:"dial_after_request_ms"` // accept time at the target minus the time just before the client sent its request
 	Stats                    Stats    `json:"stats"`
+	ClientSent               int      `json:"client_sent"` // bytes the harness client wrote after its request head (request payload included)
+	TargetSent               int      `json:"target_sent"`
 	Errors                   []string `json:"errors,omitempty"`
 }
 
@@ -342,6 +349,8 @@ func (r *relay) stats() (Stats, error) {
 // ---------- harness target / upstream ----------
 
 type targetSide struct {
+	clientGotAll chan struct{}
+	targetGotAll chan struct{}
 	ln      *net.TCPListener
 	sc      *Scenario
 	mu      sync.Mutex
@@ -365,6 +374,14 @@ type peerScript struct {
 	postEOF    []byte
 	gap        time.Duration
 	closeAfterFirst bool // eofdata / eofempty: CloseWrite right after `first`
+	// error endings
+	have0     int             // bytes of the peer's stream already received before the script starts (request payload at an upstream)
+	expect    int             // once have0 + received >= expect, gotAll is closed
+	gotAll    chan struct{}
+	abort     *net.TCPConn    // non-nil: after the chunks wait for abortWhen, then end the connection abruptly instead of CloseWrite
+	abortRST  bool            // SO_LINGER 0 (RST); otherwise a plain Close of the whole socket
+	abortWhen []chan struct{}
+	splitPost bool            // write postEOF in two bursts 40 ms apart
 }
 
 type peerResult struct {
@@ -372,6 +389,7 @@ type peerResult struct {
 	eof          bool
 	sawEOFOpen   bool // the peer's EOF arrived while our write side was still open
 	err          string
+	sent         int
 }
 
 func runPeer(c halfConn, ps peerScript, deadline time.Time, onFirstRx func()) peerResult {
@@ -379,8 +397,14 @@ func runPeer(c halfConn, ps peerScript, deadline time.Time, onFirstRx func()) pe
 	var mu sync.Mutex
 	firstRx := make(chan struct{})
 	eofCh := make(chan struct{})
-	var once sync.Once
+	var once, onceAll sync.Once
 	writeOpen := true
+	signalAll := func(got int) {
+		if ps.gotAll != nil && ps.have0+got >= ps.expect {
+			onceAll.Do(func() { close(ps.gotAll) })
+		}
+	}
+	signalAll(0)
 	go func() {
 		buf := make([]byte, 32768)
 		for {
@@ -388,7 +412,9 @@ func runPeer(c halfConn, ps peerScript, deadline time.Time, onFirstRx func()) pe
 			if n > 0 {
 				mu.Lock()
 				res.rx = append(res.rx, buf[:n]...)
+				got := len(res.rx)
 				mu.Unlock()
+				signalAll(got)
 				once.Do(func() {
 					if onFirstRx != nil {
 						onFirstRx()
@@ -428,7 +454,11 @@ func runPeer(c halfConn, ps peerScript, deadline time.Time, onFirstRx func()) pe
 		if len(b) == 0 {
 			return true
 		}
-		if _, err := c.Write(b); err != nil {
+		n, err := c.Write(b)
+		mu.Lock()
+		res.sent += n
+		mu.Unlock()
+		if err != nil {
 			mu.Lock()
 			if res.err == "" {
 				res.err = "write: " + err.Error()
@@ -461,7 +491,26 @@ func runPeer(c halfConn, ps peerScript, deadline time.Time, onFirstRx func()) pe
 			}
 			ok = write(ch)
 		}
-		if ok {
+		if ok && ps.abort != nil {
+			for _, ch := range ps.abortWhen {
+				if ok {
+					ok = wait(ch)
+				}
+			}
+			if ok {
+				mu.Lock()
+				writeOpen = false
+				mu.Unlock()
+				if ps.abortRST {
+					_ = ps.abort.SetLinger(0)
+				}
+				_ = ps.abort.Close()
+				<-eofCh // the reader ends with "use of closed network connection"
+				mu.Lock()
+				res.err = ""
+				mu.Unlock()
+			}
+		} else if ok {
 			if ps.closeFirst {
 				closeW()
 				wait(eofCh)
@@ -470,7 +519,15 @@ func runPeer(c halfConn, ps peerScript, deadline time.Time, onFirstRx func()) pe
 				cleanEOF := res.eof
 				mu.Unlock()
 				if cleanEOF {
-					write(ps.postEOF)
+					if ps.splitPost && len(ps.postEOF) > 1 {
+						h := len(ps.postEOF) / 2
+						if write(ps.postEOF[:h]) {
+							time.Sleep(40 * time.Millisecond)
+							write(ps.postEOF[h:])
+						}
+					} else {
+						write(ps.postEOF)
+					}
 				}
 				closeW()
 			}
@@ -583,8 +640,20 @@ func (t *targetSide) serve(deadline time.Time) {
 	if sc.CloseFirst == "client" {
 		ps.postEOF = stream(sc.TSeed, off, sc.PostEOFLen)
 	}
+	ps.have0, ps.gotAll = len(initial), t.targetGotAll
+	switch sc.Reset {
+	case "target":
+		ps.expect = sc.clientTotal()
+		ps.abort, ps.abortRST, ps.abortWhen = tc, true, []chan struct{}{t.targetGotAll, t.clientGotAll}
+	case "wclosed":
+		ps.expect = sc.clientTotal() - sc.PostEOFLen
+		ps.abort, ps.abortWhen = tc, []chan struct{}{t.targetGotAll, t.clientGotAll}
+	default:
+		ps.expect = sc.clientTotal()
+	}
 	res := runPeer(c, ps, deadline, nil)
 	t.mu.Lock()
+	t.obs.TargetSent = res.sent
 	t.obs.TargetRx = append(initial, res.rx...)
 	t.obs.TargetRxLen = len(t.obs.TargetRx)
 	t.obs.TargetEOF = res.eof
@@ -761,7 +830,7 @@ func runScenario(sc *Scenario, ev *env) (obs Obs, err error) {
 		return obs, err
 	}
 	defer ln.Close()
-	ts := &targetSide{ln: ln, sc: sc, obs: &obs, done: make(chan struct{})}
+	ts := &targetSide{ln: ln, sc: sc, obs: &obs, done: make(chan struct{}), clientGotAll: make(chan struct{}), targetGotAll: make(chan struct{})}
 	r, err := startRelay(sc, ln.Addr().String(), ev)
 	if err != nil {
 		return obs, err
@@ -811,6 +880,17 @@ func runScenario(sc *Scenario, ev *env) (obs Obs, err error) {
 	case "eofempty":
 		ps.closeAfterFirst = true
 	}
+	ps.expect, ps.gotAll = sc.targetTotal(), ts.clientGotAll
+	switch sc.Reset {
+	case "client":
+		if raw, ok := cc.c.(*net.TCPConn); ok {
+			ps.abort, ps.abortRST, ps.abortWhen = raw, true, []chan struct{}{ts.clientGotAll, ts.targetGotAll}
+		} else {
+			return obs, fmt.Errorf("client reset needs a raw TCP connection (server %s)", sc.Server)
+		}
+	case "wclosed":
+		ps.splitPost = true
+	}
 	res := runPeer(cc.c, ps, deadline, nil)
 	// whatever the script, the client is finished now: make sure the relay's copy loops can end
 	_ = cc.c.Close()
@@ -824,6 +904,10 @@ func runScenario(sc *Scenario, ev *env) (obs Obs, err error) {
 	ts.mu.Lock()
 	obs.ClientRx = res.rx
 	obs.ClientRxLen = len(res.rx)
+	obs.ClientSent = sc.ReqLen + res.sent
+	if len(co) > 0 {
+		obs.ClientSent += len(co)
+	}
 	obs.ClientEOF = res.eof
 	if res.sawEOFOpen && sc.CloseFirst == "target" && !ps.closeAfterFirst {
 		obs.SawPeerEOFBeforeOwnClose = "client"
